@@ -79,12 +79,23 @@ def plan(tier, seed):
     for H, P in ((3, 2), (4, 3), (4, 4)):
         jobs.append(("reuse", H, P, seed, 5000))
     jobs.append(("orch", seed, 100))
+    for part in (("asm", 0), ("asm", 1), ("hand", 0), ("hand", 1)):
+        jobs.append(("cliflow", seed, part, 10 ** 7))
     jobs.sort(key=lambda j: -j[-1])
     return jobs
 
 
 def run_job(job):
-    return {"slot": job_slot, "compound": job_compound, "reuse": job_reuse, "orch": job_orch}[job[0]](job)
+    return {"slot": job_slot, "compound": job_compound, "reuse": job_reuse, "orch": job_orch, "cliflow": job_cliflow}[job[0]](job)
+
+
+def job_cliflow(job):
+    """`mchap call` command line with per-sample parameter files -> CallingMCMC objects (vmc/cliflow.py)"""
+    from .. import cliflow
+
+    r = Result()
+    cliflow.call_flow(r, {"kind": "job", "job": job}, job[1], tuple(job[2]))
+    return r
 
 
 def job_orch(job):
